@@ -256,4 +256,293 @@ theorem lexNumber_render (v : NumView) (rest : List Char) (hwf : WfView v) (hs :
     rw [hts]
     simpa [List.append_assoc] using hb
 
+/-! ## what `copyNumber` writes -/
+
+theorem goodNum_view (s : List Char) (h : goodNum s = true) :
+    ∃ v : NumView, WfView v ∧ v.zeroOk = true ∧ s = v.render := by
+  unfold goodNum at h
+  simp only [Bool.and_eq_true, beq_iff_eq] at h
+  exact ⟨viewOf s, wf_of_bool _ h.1.1, h.1.2, h.2.symm⟩
+
+theorem ne_of_lt_A (c l : Char) (h : c < 'A') (hl : 'A' ≤ l) : c ≠ l := by
+  intro e; subst e
+  rw [Char.lt_def] at h; rw [Char.le_def] at hl
+  have h1 := UInt32.lt_iff_toNat_lt.1 h
+  have h2 := UInt32.le_iff_toNat_le.1 hl
+  omega
+
+theorem digit_lt_A (c : Char) (h : isDigit c = true) : c < 'A' := by
+  simp only [isDigit, Bool.and_eq_true, decide_eq_true_eq] at h
+  have h2 := h.2
+  rw [Char.le_def] at h2; rw [Char.lt_def]
+  have := UInt32.le_iff_toNat_le.1 h2
+  apply UInt32.lt_iff_toNat_lt.2
+  have e1 : ('9' : Char).val.toNat = 57 := by decide
+  have e2 : ('A' : Char).val.toNat = 65 := by decide
+  omega
+
+theorem kindOf_none_of_lt (c : Char) (h : c < 'A') : kindOf c = none := by
+  have n := fun l hl => ne_of_lt_A c l h hl
+  simp [kindOf, n 'M' (by decide), n 'm' (by decide), n 'L' (by decide), n 'l' (by decide), n 'H' (by decide), n 'h' (by decide),
+    n 'V' (by decide), n 'v' (by decide), n 'C' (by decide), n 'c' (by decide), n 'S' (by decide), n 's' (by decide),
+    n 'Q' (by decide), n 'q' (by decide), n 'T' (by decide), n 't' (by decide), n 'A' (by decide), n 'a' (by decide),
+    n 'Z' (by decide), n 'z' (by decide)]
+
+/-- characters a printed number can start with -/
+def NumStart (c : Char) : Prop := isDigit c = true ∨ c = '.' ∨ c = '-'
+
+theorem numStart_facts (c : Char) (h : NumStart c) :
+    isWsp c = false ∧ (c == ',') = false ∧ kindOf c = none ∧ isExpChar c = false := by
+  have hlt : c < 'A' := by
+    rcases h with h | h | h
+    · exact digit_lt_A c h
+    · subst h; decide
+    · subst h; decide
+  refine ⟨?_, ?_, kindOf_none_of_lt c hlt, ?_⟩
+  · rcases h with h | h | h
+    · simp only [isWsp, Bool.or_eq_false_iff, beq_eq_false_iff_ne]
+      refine ⟨⟨⟨?_, ?_⟩, ?_⟩, ?_⟩ <;> (intro e; subst e; revert h; decide)
+    · subst h; decide
+    · subst h; decide
+  · rcases h with h | h | h
+    · simp only [beq_eq_false_iff_ne]; intro e; subst e; revert h; decide
+    · subst h; decide
+    · subst h; decide
+  · rcases h with h | h | h
+    · exact (digit_not_sign c h).2.2.2
+    · subst h; decide
+    · subst h; decide
+
+theorem render_head (v : NumView) (hwf : WfView v) :
+    ∃ c t, v.render = c :: t ∧ NumStart c ∧
+      (v.neg = false → (isDigit c = true ∧ v.ip = c :: v.ip.tail ∧ v.ip ≠ []) ∨ (c = '.' ∧ v.ip = [])) ∧
+      (v.neg = true → c = '-') := by
+  rw [body_eq]
+  cases hn : v.neg with
+  | true => exact ⟨'-', _, rfl, Or.inr (Or.inr rfl), by simp, by simp⟩
+  | false =>
+    cases hip : v.ip with
+    | cons d t =>
+      have hd := hwf.hip d (by rw [hip]; simp)
+      exact ⟨d, _, rfl, Or.inl hd, by simp [hd], by simp⟩
+    | nil =>
+      have hfpne : v.fp ≠ [] := by
+        cases hwf.hne with
+        | inl h => exact absurd hip h
+        | inr h => exact h
+      have hdot : v.dot = true := by
+        cases hd : v.dot with
+        | true => rfl
+        | false => exact absurd (hwf.hdf hd) hfpne
+      simp only [hdot, fracStr, if_true, Bool.false_eq_true, if_false, List.nil_append, List.cons_append]
+      exact ⟨'.', _, rfl, Or.inr (Or.inl rfl), by simp, by simp⟩
+
+theorem any_digits (ds : List Char) (h : ∀ c ∈ ds, isDigit c = true) :
+    ds.any (fun c => c == '.' || c == 'e' || c == 'E') = false := by
+  rw [List.any_eq_false]
+  intro c hc
+  obtain ⟨_, _, h3, h4⟩ := digit_not_sign c (h c hc)
+  simp only [isExpChar, Bool.or_eq_false_iff, beq_eq_false_iff_ne] at h4
+  simp [h3, h4.1, h4.2]
+
+theorem isPlainInt_render (v : NumView) (hwf : WfView v) : isPlainInt v.render = v.isInt := by
+  rw [body_eq]
+  unfold isPlainInt NumView.isInt
+  simp only [List.any_append, any_digits v.ip hwf.hip]
+  have hsg : (if v.neg = true then ['-'] else []).any (fun c => c == '.' || c == 'e' || c == 'E') = false := by
+    cases v.neg <;> simp
+  rw [hsg]
+  cases hd : v.dot with
+  | true => simp [fracStr]
+  | false =>
+    simp only [fracStr, Bool.false_eq_true, if_false, List.any_nil, Bool.false_or, Bool.not_false, Bool.true_and]
+    cases hx : v.ex with
+    | none => simp [exStr]
+    | some p => obtain ⟨n, ds⟩ := p; simp [exStr]
+
+theorem render_int (v : NumView) (hwf : WfView v) (hi : v.isInt = true) :
+    v.render = (if v.neg then ['-'] else []) ++ v.ip := by
+  rw [body_eq]
+  unfold NumView.isInt at hi
+  simp only [Bool.and_eq_true, Bool.not_eq_true', Option.isNone_iff_eq_none] at hi
+  simp [hi.1, hi.2, fracStr, exStr]
+
+/-- the `00` → `e2` rewrite produces a well-formed non-integer lexeme with the same first character -/
+theorem body00_view (v : NumView) (hwf : WfView v) (hz : v.zeroOk = true) :
+    ∃ v' : NumView, WfView v' ∧ body00 v.render = v'.render ∧
+      v'.isInt = (isPlainInt v.render && !rewrites00 v.render) ∧ v'.neg = v.neg ∧
+      (v.ip = [] → v'.ip = []) ∧ (∀ d t, v.ip = d :: t → ∃ t', v'.ip = d :: t') := by
+  cases hr : rewrites00 v.render with
+  | false =>
+    refine ⟨v, hwf, by simp [body00, hr], by simp [isPlainInt_render v hwf], rfl, fun h => h, fun d t h => ⟨t, h⟩⟩
+  | true =>
+    have hr' := hr
+    unfold rewrites00 at hr'
+    simp only [Bool.and_eq_true] at hr'
+    have hi : v.isInt = true := by rw [← isPlainInt_render v hwf]; exact hr'.1
+    have hren := render_int v hwf hi
+    have hm := hr'.2
+    rw [hren, List.reverse_append] at hm
+    -- shape of ip.reverse
+    cases hrev : v.ip.reverse with
+    | nil =>
+      rw [hrev] at hm
+      cases hn : v.neg <;> simp [hn] at hm
+    | cons a t1 =>
+      cases t1 with
+      | nil =>
+        rw [hrev] at hm
+        cases hn : v.neg <;> simp [hn] at hm
+      | cons b t =>
+        rw [hrev] at hm
+        simp only [List.cons_append] at hm
+        have ha : a = '0' := by
+          by_cases h : a = '0'
+          · exact h
+          · exfalso; revert hm; split <;> simp_all
+        have hb : b = '0' := by
+          by_cases h : b = '0'
+          · exact h
+          · exfalso; revert hm; split <;> simp_all
+        subst ha; subst hb
+        have hip : v.ip = t.reverse ++ ['0', '0'] := by
+          have := congrArg List.reverse hrev
+          simpa using this
+        have htne : t ≠ [] := by
+          intro ht; subst ht
+          unfold NumView.zeroOk at hz
+          rw [hip] at hz
+          simp at hz
+        refine ⟨{ v with ip := t.reverse, ex := some (false, ['2']) }, ?_, ?_, ?_, rfl, ?_, ?_⟩
+        · refine ⟨?_, hwf.hfp, hwf.hdf, Or.inl (by simpa using htne), ?_⟩
+          · intro c hc; exact hwf.hip c (by rw [hip]; simp at hc ⊢; exact Or.inl hc)
+          · exact ⟨by intro c hc; simp at hc; subst hc; decide, by simp⟩
+        · unfold body00
+          rw [hr, if_pos rfl, hren, List.reverse_append, hrev]
+          rw [body_eq]
+          unfold NumView.isInt at hi
+          simp only [Bool.and_eq_true, Bool.not_eq_true', Option.isNone_iff_eq_none] at hi
+          simp [hi.1, fracStr, exStr, List.reverse_append]
+        · simp [NumView.isInt, hr, isPlainInt_render v hwf]
+        · intro h; rw [h] at hip; simp at hip
+        · intro d t' h
+          rw [hip] at h
+          cases hrt : t.reverse with
+          | nil => exact absurd (by simpa using hrt) htne
+          | cons x xs =>
+            rw [hrt] at h
+            simp only [List.cons_append, List.cons.injEq] at h
+            exact ⟨xs, by simp [h.1]⟩
+
+def headOf (v : NumView) : Char :=
+  if v.neg then '-' else match v.ip with | d :: _ => d | [] => '.'
+
+theorem render_headD (v : NumView) (hwf : WfView v) :
+    ∃ t, v.render = headOf v :: t ∧ NumStart (headOf v) := by
+  obtain ⟨c, t, h1, h2, h3, h4⟩ := render_head v hwf
+  refine ⟨t, ?_, ?_⟩
+  · rw [h1]; congr 1
+    unfold headOf
+    cases hn : v.neg with
+    | true => simp [h4 hn]
+    | false =>
+      rcases h3 hn with ⟨_, h, _⟩ | ⟨h, hip⟩
+      · rw [h]; simp
+      · simp [hip, h]
+  · unfold headOf
+    cases hn : v.neg with
+    | true => exact Or.inr (Or.inr (by simp))
+    | false =>
+      cases hip : v.ip with
+      | nil => exact Or.inr (Or.inl (by simp))
+      | cons d t => exact Or.inl (by simpa using hwf.hip d (by rw [hip]; simp))
+
+/-- the lexeme `copyNumber` writes for `s` in state `st` -/
+def numLexeme (st : PState) (s : List Char) : List Char :=
+  if needSep st (s.headD ' ') && (s.headD ' ' == '0') && !st.prevDigitIsInt then ['.', '0'] else body00 s
+
+def dotZero : NumView := { neg := false, ip := [], dot := true, fp := ['0'], ex := none }
+
+theorem dotZero_wf : WfView dotZero :=
+  ⟨by simp [dotZero], by intro c hc; simp [dotZero] at hc; subst hc; decide, by simp [dotZero], Or.inr (by simp [dotZero]),
+   by simp [dotZero]⟩
+
+theorem copyNumber_spec (st : PState) (s : List Char) (hg : goodNum s = true)
+    (hinv : st.prevDigit = true → st.prevFlag = false) :
+    ∃ (pv : NumView) (sep : List Char), WfView pv ∧ (sep = [] ∨ sep = [' ']) ∧
+      (copyNumber st s).2 = sep ++ pv.render ∧ numLexeme st s = pv.render ∧
+      (copyNumber st s).1.prevDigit = true ∧ (copyNumber st s).1.prevDigitIsInt = pv.isInt ∧
+      (copyNumber st s).1.prevFlag = false ∧ (copyNumber st s).1.cmd = st.cmd ∧
+      (st.prevDigit = true → ∀ rest, Stop st.prevDigitIsInt ((copyNumber st s).2 ++ rest)) := by
+  obtain ⟨v, hwf, hz, hs⟩ := goodNum_view s hg
+  obtain ⟨t, hrt, hns⟩ := render_headD v hwf
+  have hc0 : s.headD ' ' = headOf v := by rw [hs, hrt]; rfl
+  cases hA : (needSep st (s.headD ' ') && (s.headD ' ' == '0') && !st.prevDigitIsInt) with
+  | true =>
+    have hA' := hA
+    simp only [Bool.and_eq_true, Bool.not_eq_true', beq_iff_eq] at hA'
+    obtain ⟨⟨hsep, h0⟩, hni⟩ := hA'
+    have hpd : st.prevDigit = true := by
+      unfold needSep at hsep; simp only [Bool.and_eq_true] at hsep; exact hsep.1
+    have hcn : copyNumber st s = (st, ['.', '0']) := by
+      simp only [copyNumber, hA, if_true]
+    refine ⟨dotZero, [], dotZero_wf, Or.inl rfl, ?_, ?_, ?_, ?_, ?_, ?_, ?_⟩
+    · rw [hcn]; rfl
+    · simp only [numLexeme, hA, if_true]; rfl
+    · rw [hcn]; exact hpd
+    · rw [hcn]; exact hni
+    · rw [hcn]; exact hinv hpd
+    · rw [hcn]
+    · intro _ rest c r h
+      rw [hcn] at h
+      simp only [List.cons_append, List.cons.injEq] at h
+      rw [← h.1, hni]
+      exact ⟨by decide, by decide, by simp⟩
+  | false =>
+    obtain ⟨v', hwf', hb, hint, hneg, hip0, hipc⟩ := body00_view v hwf hz
+    have hhead : headOf v' = headOf v := by
+      unfold headOf
+      rw [hneg]
+      cases hn : v.neg with
+      | true => rfl
+      | false =>
+        cases hip : v.ip with
+        | nil => simp [hip0 hip]
+        | cons d t =>
+          obtain ⟨t', ht'⟩ := hipc d t hip
+          simp [ht']
+    obtain ⟨t2, hrt2, _⟩ := render_headD v' hwf'
+    have hcn : copyNumber st s =
+        ({ st with prevDigit := true, prevDigitIsInt := isPlainInt s && !rewrites00 s, prevFlag := false },
+          (if needSep st (s.headD ' ') then [' '] else []) ++ body00 s) := by
+      simp only [copyNumber, hA, Bool.false_eq_true, if_false]
+    have hout : (copyNumber st s).2 = (if needSep st (s.headD ' ') then [' '] else []) ++ v'.render := by
+      rw [hcn, hs, hb]
+    refine ⟨v', if needSep st (s.headD ' ') then [' '] else [], hwf', ?_, hout, ?_, ?_, ?_, ?_, ?_, ?_⟩
+    · cases needSep st (s.headD ' ') <;> simp
+    · simp only [numLexeme, hA, Bool.false_eq_true, if_false]; rw [hs, hb]
+    · rw [hcn]
+    · rw [hcn, hint, hs]
+    · rw [hcn]
+    · rw [hcn]
+    · intro hpd rest c r h
+      rw [hout] at h
+      cases hsep : needSep st (s.headD ' ') with
+      | true =>
+        rw [hsep] at h
+        simp only [if_true, List.cons_append, List.nil_append, List.cons.injEq] at h
+        rw [← h.1]; exact ⟨by decide, by decide, by simp⟩
+      | false =>
+        rw [hsep, hrt2, hhead] at h
+        simp only [Bool.false_eq_true, if_false, List.nil_append, List.cons_append, List.cons.injEq] at h
+        rw [← h.1]
+        rw [hc0] at hsep
+        unfold needSep at hsep
+        simp only [hpd, Bool.true_and, Bool.or_eq_false_iff, Bool.and_eq_false_iff, beq_eq_false_iff_ne] at hsep
+        refine ⟨hsep.1, (numStart_facts _ hns).2.2.2, ?_⟩
+        intro hi
+        rcases hsep.2 with h | h
+        · exact h
+        · rw [hi] at h; exact absurd h (by decide)
+
 end Verif.Proofs.SvgLex
